@@ -128,6 +128,9 @@ def unit_exists(hed_schema, tag_entry, attribute_name):
         issues(list): A list of issues from validating this attribute.
     """
     issues = []
+    if not hasattr(tag_entry, "get_derivative_unit_entry"):
+        # Only a unit class has units to check against; the attribute itself is reported as invalid for this section
+        return issues
     unit = tag_entry.attributes.get(attribute_name, "")
     unit_entry = tag_entry.get_derivative_unit_entry(unit)
     if unit and not unit_entry:
